@@ -104,8 +104,12 @@ void NiString::Read(NiIStream& stream, const int szSize) {
 
 void NiString::Write(NiOStream& stream, const int szSize) {
 	if (szSize == 1) {
+		// The length has to fit together with the null terminator it counts
+		const size_t maxLen = std::numeric_limits<uint8_t>::max() - (nullOutput ? 1 : 0);
+		if (str.length() > maxLen)
+			str.resize(maxLen);
+
 		auto sz = uint8_t(str.length());
-		str.resize(sz);
 
 		if (nullOutput)
 			sz += 1;
@@ -113,8 +117,11 @@ void NiString::Write(NiOStream& stream, const int szSize) {
 		stream << sz;
 	}
 	else if (szSize == 2) {
+		const size_t maxLen = std::numeric_limits<uint16_t>::max() - (nullOutput ? 1 : 0);
+		if (str.length() > maxLen)
+			str.resize(maxLen);
+
 		auto sz = uint16_t(str.length());
-		str.resize(sz);
 
 		if (nullOutput)
 			sz += 1;
